@@ -257,7 +257,7 @@ macro_rules! cast_to_float {
             $(DataType::$variant => {
                 let from_bytes = |chunk: &[u8]| {
                     let element = <$ty>::from_ne_bytes(chunk.try_into().unwrap());
-                    element as f32
+                    element as f64
                 };
                 Ok($bytes.chunks_exact(std::mem::size_of::<$ty>()).map(from_bytes).collect())
             }),*
@@ -275,7 +275,7 @@ macro_rules! cast_from_float {
     }) => {
         match $data_type {
             $(DataType::$variant => {
-                let to_bytes = |element: f32| {
+                let to_bytes = |element: f64| {
                     let element = element as $ty;
                     let bytes = <$ty>::to_ne_bytes(element);
                     bytes
@@ -301,7 +301,9 @@ fn cast_array(
     data_type: &DataType,
     as_type: &DataType,
 ) -> Result<Vec<u8>, CodecError> {
-    let elements: Vec<f32> = cast_to_float!(data_type, bytes, {
+    // Cast through f64: exact for integers up to 32 bits and for both float types
+    // (an f32 intermediate would drop the low bits of 32/64-bit integers and of f64 values)
+    let elements: Vec<f64> = cast_to_float!(data_type, bytes, {
         Int8 => i8,
         Int16 => i16,
         Int32 => i32,
